@@ -610,6 +610,111 @@ func reflectStubs() map[string]StubFn {
 	both("Slice", sliceOp(false))
 	both("Slice3", sliceOp(true))
 
+	// Value.Call on a func value whose function is Go source known to the engine: arguments are checked against the
+	// parameter types as reflect does, the function runs as an ordinary call, results come back as Values.
+	callModel := func(c *CallCtx, isSlice bool) {
+		r := unwrapRV(c.args[0])
+		sig, ok := typeUnder(r.T).(*types.Signature)
+		if !ok {
+			c.reflectPanic("call of reflect.Value.Call on " + reflectKind(r.T).String() + " Value")
+			return
+		}
+		if isSlice && !sig.Variadic() {
+			c.reflectPanic("CallSlice of non-variadic function")
+			return
+		}
+		fv := c.ex.rvGet(c.st, r)
+		cl, _ := fv.(*Closure)
+		if cl == nil {
+			c.reflectPanic("call of nil function")
+			return
+		}
+		if cl.Fn == nil {
+			unsupported("reflect.Value.Call of opaque function %s", cl.Stub)
+		}
+		var in []Value
+		if !isNilValue(c.args[1]) {
+			sv := c.args[1].(SliceV)
+			n := c.ex.concreteInt(sv.Len, "reflect.Value.Call: number of arguments")
+			if n > 0 {
+				in = c.st.heap[sv.Obj].(*ArrV).Elems[sv.Off : sv.Off+n]
+			}
+		}
+		np := sig.Params().Len()
+		packed := sig.Variadic() && !isSlice
+		if (!packed && len(in) != np) || (packed && len(in) < np-1) {
+			c.reflectPanic("Call with too few or too many input arguments")
+			return
+		}
+		argv := make([]Value, np)
+		var extra []Value
+		var elemT types.Type
+		if packed {
+			elemT = sig.Params().At(np - 1).Type().Underlying().(*types.Slice).Elem()
+		}
+		for i, a := range in {
+			ra := unwrapRV(a)
+			var pt types.Type
+			if packed && i >= np-1 {
+				pt = elemT
+			} else {
+				pt = sig.Params().At(i).Type()
+			}
+			if ra.T == nil {
+				c.reflectPanic("Call using zero Value argument")
+				return
+			}
+			if !types.AssignableTo(ra.T, pt) {
+				c.reflectPanic("Call using " + typeName(ra.T) + " as type " + typeName(pt))
+				return
+			}
+			v := c.ex.rvGet(c.st, ra)
+			if _, isI := pt.Underlying().(*types.Interface); isI {
+				if _, srcI := ra.T.Underlying().(*types.Interface); !srcI {
+					v = Iface{T: ra.T, V: v}
+				}
+			}
+			if packed && i >= np-1 {
+				extra = append(extra, v)
+			} else {
+				argv[i] = v
+			}
+		}
+		if packed {
+			if len(extra) == 0 {
+				argv[np-1] = SliceV{Len: BVC(64, 0), Cap: BVC(64, 0)}
+			} else {
+				id := c.ex.alloc(c.st, &ArrV{Elems: extra})
+				argv[np-1] = SliceV{Obj: id, Len: BVC(64, uint64(len(extra))), Cap: BVC(64, uint64(len(extra)))}
+			}
+		}
+		xw := c.isX()
+		res := sig.Results()
+		fr := c.ex.pushFrame(c.st, cl.Fn, argv, cl.Binds, nil, false)
+		retTo, isDef := c.retTo, c.isDef
+		ex := c.ex
+		fr.onRet = func(st *State, v Value) {
+			var outs []Value
+			switch res.Len() {
+			case 0:
+			case 1:
+				outs = []Value{wrapRV(xw, RValue{T: res.At(0).Type(), Imm: v})}
+			default:
+				for i, e := range v.(Tuple) {
+					outs = append(outs, wrapRV(xw, RValue{T: res.At(i).Type(), Imm: e}))
+				}
+			}
+			if len(outs) == 0 {
+				ex.finishCall(st, retTo, SliceV{Len: BVC(64, 0), Cap: BVC(64, 0)}, isDef)
+				return
+			}
+			id := ex.alloc(st, &ArrV{Elems: outs})
+			ex.finishCall(st, retTo, SliceV{Obj: id, Len: BVC(64, uint64(len(outs))), Cap: BVC(64, uint64(len(outs)))}, isDef)
+		}
+	}
+	both("Call", func(c *CallCtx) { callModel(c, false) })
+	both("CallSlice", func(c *CallCtx) { callModel(c, true) })
+
 	// ---- package-level helpers used by reflection-based container code ----
 	m["reflect.Indirect"] = func(c *CallCtx) {
 		r := unwrapRV(c.args[0])
